@@ -96,6 +96,7 @@ func runC11(w *World, r *Report) {
 	li := ComputeLocks(w, func(fn *ssa.Function) bool { return fn.Pkg != nil && fn.Pkg.Pkg.Path() == modPath+"/gossip" })
 
 	handOverIsLossless(w, r, "hand-over-to-the-origin-loop-waits")
+	wireGateRefusesOnlyTheUnconvertible(w, r, "wire-gate-refuses-only-the-unconvertible")
 	r.rule("process-once", "an incoming item is processed (ledger / cache / forward) only behind HasHash(item.Hash) == false and self ∉ verified set", 6)
 	r.rule("forward-after-accept", "forwarding lies behind the success edge of acceptance and after the node put itself into the set and the outgoing list", 6)
 	for _, row := range gossipRows {
@@ -355,19 +356,10 @@ func runC11(w *World, r *Report) {
 			}
 			ok := true
 			for _, fe := range fes {
-				reached := false
-				walkFrom(nil, fe.To(), nil, func(x ssa.Instruction) bool {
-					if c, isCall := x.(ssa.CallInstruction); isCall {
-						if strings.HasSuffix(calleeName(c), "."+row.forward) {
-							reached = true
-							return true
-						}
-						if h := samePkgHelper(x.Parent(), c); h != nil && len(deepCalls(h, bySuffix("."+row.forward), 1)) > 0 {
-							reached = true
-							return true
-						}
-					}
-					return false
+				// followed through the return of a helper the save sits in, and into helpers that forward
+				reached := reachesDeep(frameFor(fn, d.chain), fe.To(), 0, nil, func(x ssa.Instruction, _ *frame) bool {
+					c, isCall := x.(ssa.CallInstruction)
+					return isCall && strings.HasSuffix(calleeName(c), "."+row.forward)
 				})
 				if !reached {
 					ok = false
@@ -1601,4 +1593,90 @@ func capturedChan(v ssa.Value) bool {
 		}
 	}
 	return false
+}
+
+// wireGateRefusesOnlyTheUnconvertible (C11): the shape validators in front of the gossip handlers exist so that the
+// conversion to the ledger form cannot panic. A length test in such a validator on a field that no conversion turns
+// into a fixed-size array is a refusal by content: a vertex the origin's ledger accepted (and every ledger would accept)
+// is turned away at the door of every peer.
+func wireGateRefusesOnlyTheUnconvertible(w *World, r *Report, rule string) {
+	r.rule(rule, "the pure shape validators of package gossip (functions of protobuf messages that return an error and call nothing but len and each other) test the length only of fields that the wire-to-ledger mappers convert to fixed-size arrays ([N]byte(x)); nil tests of the message and its sub-messages are free", 1)
+	relPath := func(v ssa.Value) string {
+		p := pathOf(v)
+		if i := strings.Index(p, "."); i >= 0 {
+			return p[i:]
+		}
+		return ""
+	}
+	conv := map[string]bool{}
+	for _, fn := range w.RepoFuncs("gossip", "transformers") {
+		instrsOf(fn, func(in ssa.Instruction) {
+			if x, ok := in.(*ssa.SliceToArrayPointer); ok {
+				if rp := relPath(x.X); rp != "" {
+					conv[rp] = true
+				}
+			}
+		})
+	}
+	pure := map[*ssa.Function]bool{}
+	var isPure func(fn *ssa.Function, depth int) bool
+	isPure = func(fn *ssa.Function, depth int) bool {
+		if v, ok := pure[fn]; ok {
+			return v
+		}
+		if depth > 3 || fn.Parent() != nil || len(fn.Blocks) == 0 || fn.Signature.Results().Len() != 1 || !isErrorType(fn.Signature.Results().At(0).Type()) {
+			return false
+		}
+		hasPB := false
+		for _, p := range fn.Params {
+			if isPBMessagePtr(p.Type()) {
+				hasPB = true
+			}
+		}
+		if !hasPB || fn.Signature.Recv() != nil {
+			return false
+		}
+		ok := true
+		instrsOf(fn, func(in ssa.Instruction) {
+			c, isCall := in.(ssa.CallInstruction)
+			if !isCall {
+				return
+			}
+			if b, isB := c.Common().Value.(*ssa.Builtin); isB && (b.Name() == "len" || b.Name() == "cap") {
+				return
+			}
+			if cal := c.Common().StaticCallee(); cal != nil && cal != fn && cal.Pkg == fn.Pkg && isPure(cal, depth+1) {
+				return
+			}
+			ok = false
+		})
+		pure[fn] = ok
+		return ok
+	}
+	n := 0
+	for _, fn := range w.RepoFuncs("gossip") {
+		if !isPure(fn, 0) {
+			continue
+		}
+		n++
+		bad := ""
+		instrsOf(fn, func(in ssa.Instruction) {
+			c, isCall := in.(*ssa.Call)
+			if !isCall {
+				return
+			}
+			if b, isB := c.Call.Value.(*ssa.Builtin); !isB || b.Name() != "len" {
+				return
+			}
+			rp := relPath(c.Call.Args[0])
+			if rp == "" || conv[rp] {
+				return
+			}
+			bad += fmt.Sprintf(" len(%s) is tested at %s, but no mapper converts %s to a fixed-size array;", pathOf(c.Call.Args[0]), lineOf(w, c), rp)
+		})
+		r.check(bad == "", rule, shortFn(fn), w.Pos(fn.Pos()), "the validator tests lengths only where a conversion needs them", bad)
+	}
+	if n == 0 {
+		r.ok(rule, "none", "-", "package gossip has no pure shape validator (the handlers test the shape inline: judged by exits-accounted and D1)")
+	}
 }
